@@ -42,13 +42,18 @@ Inductive xcomp :=
 | RtpNackGen                (* pkg/nack/generator_interceptor.go BindRemoteStream: attr.GetRTPHeader(b[:i]) *)
 | RtpReport                 (* pkg/report/receiver_interceptor.go BindRemoteStream: attr.GetRTPHeader(b[:i]) *)
 | DumpSenderRtcp            (* pkg/packetdump/sender_interceptor.go BindRTCPWriter: the caller's []rtcp.Packet goes to the logger goroutine *)
-| StatsRtcpOut.             (* pkg/stats/interceptor.go BindRTCPWriter: QueueOutgoingRTCP processes the packets before returning *)
+| StatsRtcpOut              (* pkg/stats/interceptor.go BindRTCPWriter: QueueOutgoingRTCP processes the packets before returning *)
+(* the caller's interceptor.Attributes MAP passed to Write (one part: the map's contents) *)
+| AttrLeakyBucket           (* pkg/gcc/leaky_bucket_pacer.go Write: item{attributes: attributes}: the caller's map is queued *)
+| AttrPacing                (* pkg/pacing/interceptor.go: attr := maps.Clone(attributes) *)
+| AttrDumpSender.           (* pkg/packetdump: rtpDump{attributes: attributes}: the caller's map goes to the logger goroutine *)
 
 Definition xcomp_eqb (a b : xcomp) : bool :=
   match a, b with
   | Old c, Old d => comp_eqb c d
   | RtcpNack, RtcpNack | RtcpReport, RtcpReport | RtcpStats, RtcpStats | RtcpRtpfb, RtcpRtpfb | RtcpCc, RtcpCc
-  | RtpNackGen, RtpNackGen | RtpReport, RtpReport | DumpSenderRtcp, DumpSenderRtcp | StatsRtcpOut, StatsRtcpOut => true
+  | RtpNackGen, RtpNackGen | RtpReport, RtpReport | DumpSenderRtcp, DumpSenderRtcp | StatsRtcpOut, StatsRtcpOut
+  | AttrLeakyBucket, AttrLeakyBucket | AttrPacing, AttrPacing | AttrDumpSender, AttrDumpSender => true
   | _, _ => false
   end.
 
@@ -77,6 +82,7 @@ Definition lib_ret (x : xcomp) (p : nat) (n : Z) : rmode :=
   | Old NackNoCopy | Old JBPush => RRef              (* documented exceptions *)
   | Old DumpReceiverRtcp => RRef                     (* logRTCPPackets(pkts, attr): the parsed packets go to the logger goroutine as they are *)
   | DumpSenderRtcp => RRef                           (* logRTCPPackets(pkts, attributes): the CALLER'S packets go to the logger goroutine (known finding) *)
+  | AttrLeakyBucket | AttrDumpSender => RRef         (* the caller's attributes map is kept (known finding) *)
   | Old NackCopy | Old NackRtx                       (* PacketFactoryCopy.NewPacket: if len(payload) > maxPayloadLen { return nil, io.ErrShortBuffer } *)
   | Old LeakyBucket =>                               (* LeakyBucketPacer.Write: if len(payload) > maxPayloadLen { return 0, io.ErrShortBuffer } *)
       if (Nat.eqb p payload_part) && (n >? pool_payload_len) then RReject else RVal
